@@ -248,13 +248,15 @@ def c10_extent():
             raise Unsupported("data_extent does not return a 4-tuple")
         vars_ = " ".join(sorted(set(fields.values())))
         thms.append(f"""theorem gen_{cls}_pixel ({vars_} : Rat) : ({w} : Rat) = {spec_pw} ∧ ({h} : Rat) = {spec_ph} := by
-  constructor <;> ring
+  refine ⟨?_, ?_⟩
+  all_goals (try (first | trivial | rfl | ring))
 
 theorem gen_{cls}_extent ({vars_} : Rat) (rows cols : Nat) :
     ({{ x0 := {ext[0]}, x1 := {ext[1]}, y0 := {ext[2]}, y1 := {ext[3]} }} : Pew.Extent.Ext)
       = Pew.Extent.extentSpec {spec_pw} {spec_ph} rows cols := by
-  simp only [Pew.Extent.extentSpec]
-  congr 1 <;> ring
+  simp only [Pew.Extent.extentSpec, Pew.Extent.Ext.mk.injEq]
+  all_goals (try (refine ⟨?_, ?_, ?_, ?_⟩))
+  all_goals (try (first | trivial | rfl | ring))
 """)
     body = "import PewModel.Extent\nimport Mathlib.Tactic.Ring\nimport Mathlib.Algebra.Order.Field.Rat\n" \
            "/- generated from src/pewlib/config.py, sha256 " + hashlib.sha256(src.encode()).hexdigest()[:16] + " -/\n" \
